@@ -171,6 +171,26 @@ def gen_cases(ctx, tier):
                     ops.append("o")
             cases.append({"id": "k%d" % (len(cases) + 1), "raw": "ring %d %s" % (size, " ".join(ops)), "w": 0,
                           "seed": 0, "delay": 0, "spec": "", "dup": 0, "stop": 0, "rounds": 0, "tag": "ring%d" % size})
+    # concurrent callers: 2..4 caller threads share ONE validator, each with its own PopData; every caller must get
+    # the one-by-one verdict of its own PopData, whatever the others submitted (no exception, no deadlock)
+    def caller_spec():
+        n = r.choice([1, 3, 6, 12])
+        pat = r.choice(["none", "none", "first", "middle", "last", "dup"])
+        bad = {"none": set(), "dup": set(), "first": {0}, "middle": {n // 2}, "last": {n - 1}}[pat]
+        nctx = r.range(0, n) if r.chance(1, 3) else 0
+        nvtb = r.range(0, min(2, n - nctx)) if nctx else 0
+        return "%s,%d" % (mk_spec(r, nctx, n - nctx - nvtb, bad, nvtb), 1 if pat == "dup" else 0)
+    wcounts = [1, 2, 3, 4, 8, 16] if tier == "quick" else list(range(1, 17)) * 3
+    for w in wcounts:
+        k = r.range(2, 4)
+        callers = [caller_spec() for _ in range(k)]
+        cases.append({"id": "k%d" % (len(cases) + 1), "raw": "multi %d %d %d %d %s" % (w, r.below(1 << 30), r.choice([0, 100, 500]), 2, " ".join(callers)),
+                      "w": w, "seed": 0, "delay": 0, "spec": "", "dup": 0, "stop": 0, "rounds": 2, "tag": "multi%d" % k})
+    # the hostile shape: one caller has many checks queued behind slow workers while another caller's PopData is
+    # found invalid at once (context block below the fork height: no header hook, no delay)
+    for w in ([1, 2, 4] if tier == "quick" else list(range(1, 9))):
+        cases.append({"id": "k%d" % (len(cases) + 1), "raw": "multi %d %d 800 3 %s,0 x,0 %s,0" % (w, r.below(1 << 30), "a" * 12, "xv"),
+                      "w": w, "seed": 0, "delay": 0, "spec": "", "dup": 0, "stop": 0, "rounds": 3, "tag": "multi-invalid-vs-queued"})
     add(2, 300, "", tag="empty")
     add(4, 300, "x" + "v" * 8 + "a" * 8, tag="ctx-first-invalid")
     add(3, 300, "v" * 6 + "a" * 6, dup=1, rounds=2, stop=1, tag="dup")
